@@ -44,6 +44,12 @@ def gen_cases(ck):
                       "ny": int(ck.rng.integers(2, 5)), "subset": None, "mobius": False, "kmin": 0, "kmax": 0, "param_mode": "uniform", "noise": 0.0,
                       "fit": "dlite", "kind": ["rotate", "all"][(i // 2) % 2], "t_angle": float(ck.rng.uniform(0.2, 1.3)), "t_scale": float(10.0 ** ck.rng.uniform(-2, 2)),
                       "t_shift": [float(ck.rng.normal() * 10), float(ck.rng.normal() * 10)]})
+    for i in range(4 if ck.tier == "quick" else 24):
+        # a curved interface whose first chord at a junction is exactly axis-parallel in the original pose, generic after the rotation
+        cases.append({"type": "static", "seed": int(ck.rng.integers(1 << 30)), "tissue": ["random", "jitter"][i % 2], "sites": int(ck.rng.integers(20, 40)),
+                      "subset": None, "min_ridge": 0.005, "mobius": True, "strength": float(ck.rng.uniform(1.0, 2.5)), "kmin": 1, "kmax": [1, 3, 8][i % 3],
+                      "param_mode": "uniform", "noise": 0.0, "fit": ["dlite", "taubinSVD"][i % 2], "kind": "rotate", "t_angle": float(ck.rng.uniform(0.2, 1.3)),
+                      "t_scale": 1.0, "t_shift": [0.0, 0.0], "axis_chord": True})
     for i in range(6 if ck.tier == "quick" else 40):
         cases.append({"type": "units", "seed": int(ck.rng.integers(1 << 30)), "tissue": ["random", "jitter"][int(ck.rng.integers(2))],
                       "sites": int(ck.rng.integers(24, 46)), "subset": None, "min_ridge": 0.005, "mobius": True, "strength": 1.0, "kmin": 1, "kmax": 4,
@@ -69,6 +75,18 @@ def transform_of(case):
 
 def build(case, ang, scl, sh, refl):
     c = dict(case)
+    if case.get("axis_chord"):
+        # original pose: a curved interface leaves a junction with its first chord exactly parallel to a coordinate axis (and the
+        # tangent on the side the code's sign rule picks); the other poses are built from the same tissue turned further
+        from props.c02 import axis_chord
+        base = axis_chord(dict(case, angle=0.0, scale=1.0, shift=[0.0, 0.0], reflect=False))
+        if base is None:
+            return None
+        if (ang, scl, sh, refl) == (0.0, 1.0, [0.0, 0.0], False):
+            return base
+        c.pop("axis_chord")
+        c.update({"angle": base.case["angle"] + ang, "scale": scl, "shift": sh, "reflect": False})
+        return statics.build_static(c)
     c.update({"angle": ang, "scale": scl, "shift": sh, "reflect": refl})
     if case.get("noise", 0.0) > 0:
         rng = np.random.default_rng(case["seed"] + 5)
@@ -113,13 +131,23 @@ def run_static_case(ck, case, reqs, pending):
         ck.case(case); return
     ctol = 2 * max(physical.coef_tolerance(a, pa, fit), physical.coef_tolerance(b, pb, fit))
     worst, worst_key = 0.0, None
+    clean, clean_key = 0.0, None            # over the coefficients whose closed-form tangent is not mirrored by finding D2 in either pose
     for key, (cx, cy) in pa.coefs.items():
         ex, ey = lin(ang, refl, (cx, cy))
         gx, gy = pb.coefs[key]
         dev = max(abs(gx - ex), abs(gy - ey))
         if dev > worst:
             worst, worst_key = dev, key
-    if worst > ctol:
+        if not noisy and key not in pa.d2 and key not in pb.d2 and dev > clean:
+            clean, clean_key = dev, key
+    if clean > ctol:
+        # finding KF7: the iterative fit stopped short of the circle the points lie on, in one pose and not in the other
+        badfit = set()
+        for ph_ in (pa, pb):
+            badfit |= {(j_, ph_.ridge_of(ph_.used[c_])) for c_ in physical.unconverged_fits(ph_.frame, ph_.used, fit) for j_ in ph_.ridge_of(ph_.used[c_]) or ()}
+        ck.fail("the assembled coefficient pairs rotate / reflect with the tissue", f"max deviation {clean:.3g} at {clean_key} (tolerance {ctol:.3g}); "
+                "neither pose mirrors this tangent", case, signature=physical.SIG_FIT if clean_key in badfit else None)
+    elif worst > ctol:
         flagged = d2 if d2 is not None else True     # without a closed form (noisy tissue) the sign forcing cannot be excluded
         ck.fail("the assembled coefficient pairs rotate / reflect with the tissue", f"max deviation {worst:.3g} at {worst_key} (tolerance {ctol:.3g})",
                 case, signature=SIG_D2 if flagged and worst < 0.2 else None)
